@@ -182,7 +182,7 @@ Qed.
 
 Definition rw_kw_stream : list N := [10; 115; 116; 114; 101; 97; 109; 10].       (* LF stream LF *)
 
-Lemma rd_read_at_emitted_stream_lemma : forall e resolve objs ren k dd data tail off,
+Lemma rd_read_at_emitted_stream_step : forall e resolve objs ren k dd data tail off,
   let o0 := rw_stream_dict (ODict dd) (rd_len data) in
   rd_at (rde_file e) off = obj_header k ++ unparse wm_unparse_string wm_unparse_name objs ren o0
                            ++ rw_kw_stream ++ data ++ rd_s_endstream ++ s_endobj ++ tail ->
